@@ -154,7 +154,7 @@ func main() {
 	rng := lib.NewRng(f.Seed)
 	out := lib.NewOut("C30", f)
 	out.Imports = "From Verif Require Import Base.Lin Model.Strategy.\n"
-	out.Rule = "seq: histories of 3-9 operations on one fresh StrategyManager (TrackConnection, release, RecordLatency with latencies >= 1ns, ActiveConnections, connection attempts = the real nextBackend iterator called until exhaustion (at most len+2 calls, all dials fail) or until a scripted successful dial, then tracked) over backend lists of 1-5 entries drawn from hosts in three spellings x {no port, :25565, :25566, :1, :0, :025565, :65536} plus multi-colon and (one list kind in four) unparsable 'host:x' entries, strategies sequential/''/round-robin/least-connections/lowest-latency; canon: canonicalBackendAddress on the same pool; count: 3 goroutines x 2-3 Track/ActiveConnections/release calls + a final read after join; rr: 3 goroutines x 2-3 round-robin selections on one route; balance: 8 goroutines x 2000 selections; distinct = distinct Coq term; non-trivial = an attempt over >=2 backends, or a concurrent history with >=2 overlapping calls"
+	out.Rule = "seq: histories of 3-9 operations on one fresh StrategyManager (TrackConnection, release, RecordLatency with latencies >= 1ns, ActiveConnections, connection attempts = the real nextBackend iterator called until exhaustion (at most len+2 calls, all dials fail) or until a scripted successful dial, then tracked) over backend lists of 1-5 entries drawn from hosts in three spellings x {no port, :25565, :25566, :1, :0, :025565, :65536} plus multi-colon and (one list kind in four) unparsable 'host:x' entries, strategies sequential/''/round-robin/least-connections/lowest-latency; canon: canonicalBackendAddress on the same pool; forward: 2-4 real lite.Forward calls per case over loopback TCP on one StrategyManager (2-3 backends that serve / refuse / reset after the handshake / close mid-pipe; client with no, some, failing, or 64 KiB late buffered bytes; sequential or least-connections), ActiveConnections after every Forward settles or returns and at quiescence, then the least-connections order through the real iterator; count: 3 goroutines x 2-3 Track/ActiveConnections/release calls + a final read after join; rr: 3 goroutines x 2-3 round-robin selections on one route; balance: 8 goroutines x 2000 selections; distinct = distinct Coq term; non-trivial = an attempt over >=2 backends, or a concurrent history with >=2 overlapping calls"
 
 	// ---------- canonical form
 	addCanon := func(b string) {
@@ -291,6 +291,12 @@ func main() {
 			}
 			emit("active")
 		})
+	}
+
+	// ---------- the real lite.Forward over loopback TCP
+	runForwardCase(out, rng.Fork(), true)
+	for i := 0; i < f.Count(10); i++ {
+		runForwardCase(out, rng.Fork(), false)
 	}
 
 	// ---------- concurrent connection counters (real goroutines, logical clock, Lin in Coq)
